@@ -123,9 +123,14 @@ func genWorlds(r *wire.Rng, n int) []genWorld {
 			if r.Chance(1, 2) {
 				add(podSpec{name: "ztx", ns: "istio-system", sa: "other", node: wire.Pick(r, genNodes)})
 			}
+			if r.Chance(1, 3) {
+				// a pod with the NAME of a node proxy in another namespace (another account, possibly another node): the
+				// caller's pod is found by namespace AND name
+				add(podSpec{name: wire.Pick(r, []string{"zt1", "zt2"}), ns: wire.Pick(r, []string{"a", "c"}), sa: wire.Pick(r, []string{"ztunnel", "b"}), node: wire.Pick(r, genNodes)})
+			}
 			np := 2 + r.Intn(7)
 			for i := 0; i < np; i++ {
-				p := podSpec{name: "p" + strconv.Itoa(i), ns: wire.Pick(r, genNSs), sa: wire.Pick(r, genSAs), node: wire.Pick(r, genNodes)}
+				p := podSpec{name: "p" + strconv.Itoa(i%5), ns: wire.Pick(r, genNSs), sa: wire.Pick(r, genSAs), node: wire.Pick(r, genNodes)}
 				if r.Chance(1, 10) {
 					p.sa = ""
 				}
@@ -199,6 +204,10 @@ func genCAConfig(r *wire.Rng) genCA {
 		c.chain = []int64{c.life}
 	case 22:
 		c.kind, c.life = "selfk8s", farLife
+		if r.Chance(1, 2) {
+			// the self-signed CA as istiod runs it: root-cert rotator started, a rootCertFile with a further root
+			c.kind, c.life = "selfrot", wire.Pick(r, []int64{7200, 30 * 86400})
+		}
 	case 23:
 		c.kind, c.life = "plugrsa", farLife
 		c.chain = []int64{farLife}
@@ -235,6 +244,9 @@ func genCAConfig(r *wire.Rng) genCA {
 	c.max = wire.Pick(r, []int64{3600, 86400, 90 * 86400})
 	if r.Chance(1, 10) {
 		c.def = c.max * 2 // misconfiguration: default above max
+	}
+	if r.Chance(1, 40) {
+		c.max = 0 // a zero maximum: every positive request is refused, a defaulted lifetime is capped to nothing
 	}
 	return c
 }
@@ -350,6 +362,9 @@ func genCSR(r *wire.Rng) csrSpec {
 	if r.Chance(2, 3) {
 		c.key = wire.Pick(r, []string{"ec256-a", "ec256-b", "ec384", "ec521", "ed25519"}) // keep RSA signing rare (speed)
 	}
+	if c.key == "rsa1024" && !r.Chance(1, 3) {
+		c.key = "ec256-a"
+	}
 	c.cn = wire.Pick(r, []string{"", "", "x", "evil.example.com", "spiffe://cluster.local/ns/kube-system/sa/admin", strings.Repeat("c", 64)})
 	c.org = wire.Pick(r, []string{"", "Evil Corp"})
 	if r.Chance(1, 2) {
@@ -360,6 +375,13 @@ func genCSR(r *wire.Rng) csrSpec {
 	}
 	c.ca = r.Chance(1, 3)
 	c.extra = r.Chance(1, 4)
+	if r.Chance(1, 10) {
+		// a corrupted byte anywhere, several PEM blocks, an RSA-PSS proof of possession, a key type Go does not know
+		c.form = wire.Pick(r, []string{"flip" + strconv.Itoa(r.Intn(64)), "flip" + strconv.Itoa(r.Intn(64)), "multi", "multibad", "pss", "unkkey"})
+		if c.form == "pss" && !r.Chance(1, 4) {
+			c.form = "multi" // keep RSA signing rare (speed)
+		}
+	}
 	if c.form == "ok" && r.Chance(1, 6) {
 		// what a real agent sends: util.GenCSR
 		c.form, c.ca = "gen", false
@@ -451,7 +473,7 @@ func genImpersonation(r *wire.Rng, w genWorld) string {
 	s := func(v string) string { return "s:" + wire.Enc(v) }
 	switch r.Intn(16) {
 	case 0:
-		return "n"
+		return wire.Pick(r, []string{"n", "l", "o", "b", "z"}) // number, list, struct, bool, null: not a string, so no impersonation
 	case 1:
 		return s(wire.Pick(r, []string{"spiffe://cluster.local/ns/a", "spiffe://cluster.local/ns/a/sa/b/extra", "spiffe://cluster.local/xx/a/sa/b",
 			"a.b", "spiffe://cluster.local/ns//sa/", "spiffe:/cluster.local/ns/a/sa/b", "cluster.local/ns/a/sa/b", "spiffe://", "spiffe:////"}))
@@ -520,6 +542,20 @@ func genGoodImpersonation(r *wire.Rng, w genWorld, q *reqSpec) {
 		case 8:
 			imp += "%20"
 		}
+	case 16, 17:
+		// the UID of the pod that has the caller's NAME in another namespace (and runs as the same account), asking for a
+		// workload on THAT pod's node: the caller's pod is the one in the caller's namespace, whose UID does not match
+		for _, p := range pods {
+			if p.name == zt.name && p.ns != zt.ns && p.sa == zt.sa && !p.failed() {
+				o.kube.PodUID = p.uid
+				for _, t := range pods {
+					if t.node == p.node && t.sa != "" && t.node != "" && !t.failed() {
+						imp = "spiffe://cluster.local/ns/" + t.ns + "/sa/" + t.sa
+					}
+				}
+				break
+			}
+		}
 	case 18:
 		o.kube.PodUID = "" // valid pod name, no UID presented
 	case 19, 20:
@@ -575,6 +611,90 @@ func kubeSpecTokens(td, primary string, aliases []string, remotes, cluster, form
 	return []string{"kube", "grpc", wire.Enc(td), wire.Enc(primary), wire.EncList(aliases), remotes, cluster, form, wire.Enc(token), wire.EncList(tokenAud), rev.tok()}
 }
 
+// genAmbientKube: the ambient flow through the REAL Kubernetes-JWT authenticator - the spec of a node proxy's
+// token (mostly in order, sometimes off by one ingredient); sets the request's cluster and impersonated identity.
+// nil: the world has no pods.
+func genAmbientKube(r *wire.Rng, w genWorld, req *reqSpec) []string {
+	id := wire.Pick(r, w.ids)
+	pods := w.pods[id]
+	if len(pods) == 0 {
+		return nil
+	}
+	zt := wire.Pick(r, pods)
+	var proxies []podSpec
+	for _, p := range pods {
+		for _, t := range w.trusted {
+			if t == p.ns+"/"+p.sa {
+				proxies = append(proxies, p)
+			}
+		}
+	}
+	if len(proxies) > 0 && r.Chance(5, 6) {
+		zt = wire.Pick(r, proxies)
+	}
+	tgt := wire.Pick(r, pods)
+	if r.Chance(2, 3) {
+		var same []podSpec
+		for _, p := range pods {
+			if p.node == zt.node && p.sa != "" {
+				same = append(same, p)
+			}
+		}
+		if len(same) > 0 {
+			tgt = wire.Pick(r, same)
+		}
+	}
+	rev := reviewSpec{authenticated: true, groups: []string{"system:serviceaccounts", "system:authenticated"},
+		username: "system:serviceaccount:" + zt.ns + ":" + zt.sa, podName: "=" + wire.EncList([]string{zt.name}), podUID: "=" + wire.EncList([]string{zt.uid})}
+	switch r.Intn(16) {
+	case 0:
+		rev.podUID = "=" + wire.EncList([]string{"stale"})
+	case 1:
+		rev.podName = "-"
+	case 2:
+		rev.authenticated = false
+	case 3:
+		rev.podUID = "-" // the API server reports no pod UID
+	case 4:
+		rev.podUID = "=" // ... or an empty list of them
+	case 5:
+		// the token is the trusted account's, the pod name that of a pod running as another account
+		for _, p := range pods {
+			if p.ns == zt.ns && p.sa != zt.sa && !p.failed() {
+				rev.podName, rev.podUID = "="+wire.EncList([]string{p.name}), "="+wire.EncList([]string{p.uid})
+				break
+			}
+		}
+	case 6:
+		// the pod of that NAME in another namespace (the token's namespace is the proxy's)
+		for _, p := range pods {
+			if p.name == zt.name && p.ns != zt.ns {
+				rev.podUID = "=" + wire.EncList([]string{p.uid})
+				break
+			}
+		}
+	}
+	td := wire.Pick(r, genTDs)
+	req.cluster = wire.EncList([]string{id})
+	if r.Chance(1, 8) {
+		req.cluster = genCluster(r, w)
+	}
+	remotes := "nil"
+	primary := id
+	if r.Chance(1, 3) {
+		primary, remotes = "Kubernetes", wire.EncList(w.ids)
+	}
+	impTD := td
+	if r.Chance(1, 6) {
+		impTD = wire.Pick(r, genTDs)
+	}
+	req.imp = "s:" + wire.Enc("spiffe://"+impTD+"/ns/"+tgt.ns+"/sa/"+tgt.sa)
+	if r.Chance(1, 8) {
+		req.imp = genImpersonation(r, w)
+	}
+	return kubeSpecTokens(td, primary, nil, remotes, req.cluster, "bearer", "node-proxy-token", []string{"istio-ca"}, rev)
+}
+
 // genReqA: a request authenticated by one REAL authenticator (kind 0 oidc, 1 kube, 2 xfcc, 3 cert over a
 // hand-built chain, 4 client certificate over a real TLS handshake with the real PeerCertVerifier).
 func genReqA(r *wire.Rng, w genWorld, cfg genCA) reqaSpec {
@@ -590,7 +710,7 @@ func genReqA(r *wire.Rng, w genWorld, cfg genCA) reqaSpec {
 			if kind == 1 {
 				q.spec[6] = q.req.cluster
 			}
-			if _, ok := expectedFromCredential(q.spec, q.req.cluster); ok {
+			if _, ok := expectedFromCredential(q.spec, q.req.cluster, nil); ok {
 				break
 			}
 			q.spec = genAuthSpec(r, kind, "grpc", true)
@@ -602,80 +722,19 @@ func genReqA(r *wire.Rng, w genWorld, cfg genCA) reqaSpec {
 	if kind == 1 && len(w.ids) > 0 && r.Chance(2, 3) {
 		// the ambient flow: a node proxy authenticates with its Kubernetes token and asks for the
 		// identity of a workload on its node
-		id := wire.Pick(r, w.ids)
-		pods := w.pods[id]
-		if len(pods) > 0 {
-			zt := wire.Pick(r, pods)
-			var proxies []podSpec
-			for _, p := range pods {
-				for _, t := range w.trusted {
-					if t == p.ns+"/"+p.sa {
-						proxies = append(proxies, p)
-					}
-				}
-			}
-			if len(proxies) > 0 && r.Chance(5, 6) {
-				zt = wire.Pick(r, proxies)
-			}
-			tgt := wire.Pick(r, pods)
-			if r.Chance(2, 3) {
-				var same []podSpec
-				for _, p := range pods {
-					if p.node == zt.node && p.sa != "" {
-						same = append(same, p)
-					}
-				}
-				if len(same) > 0 {
-					tgt = wire.Pick(r, same)
-				}
-			}
-			rev := reviewSpec{authenticated: true, groups: []string{"system:serviceaccounts", "system:authenticated"},
-				username: "system:serviceaccount:" + zt.ns + ":" + zt.sa, podName: "=" + wire.EncList([]string{zt.name}), podUID: "=" + wire.EncList([]string{zt.uid})}
-			switch r.Intn(16) {
-			case 0:
-				rev.podUID = "=" + wire.EncList([]string{"stale"})
-			case 1:
-				rev.podName = "-"
-			case 2:
-				rev.authenticated = false
-			case 3:
-				rev.podUID = "-" // the API server reports no pod UID
-			case 4:
-				rev.podUID = "=" // ... or an empty list of them
-			case 5:
-				// the token is the trusted account's, the pod name that of a pod running as another account
-				for _, p := range pods {
-					if p.ns == zt.ns && p.sa != zt.sa && !p.failed() {
-						rev.podName, rev.podUID = "="+wire.EncList([]string{p.name}), "="+wire.EncList([]string{p.uid})
-						break
-					}
-				}
-			}
-			td := wire.Pick(r, genTDs)
-			q.req.cluster = wire.EncList([]string{id})
-			if r.Chance(1, 8) {
-				q.req.cluster = genCluster(r, w)
-			}
-			remotes := "nil"
-			primary := id
-			if r.Chance(1, 3) {
-				primary, remotes = "Kubernetes", wire.EncList(w.ids)
-			}
-			q.spec = kubeSpecTokens(td, primary, nil, remotes, q.req.cluster, "bearer", "node-proxy-token", []string{"istio-ca"}, rev)
-			impTD := td
-			if r.Chance(1, 6) {
-				impTD = wire.Pick(r, genTDs)
-			}
-			q.req.imp = "s:" + wire.Enc("spiffe://"+impTD+"/ns/"+tgt.ns+"/sa/"+tgt.sa)
-			if r.Chance(1, 8) {
-				q.req.imp = genImpersonation(r, w)
-			}
+		if sp := genAmbientKube(r, w, &q.req); sp != nil {
+			q.spec = sp
 		}
 	} else if kind == 1 {
 		q.spec[6] = q.req.cluster
 	} else if r.Chance(1, 6) {
 		// impersonation asked by a caller whom a non-Kubernetes authenticator authenticated (no pod information)
 		q.req.imp = genImpersonation(r, w)
+	}
+	if kind != 4 && r.Chance(1, 7) {
+		// the same request over a connection that is not TLS: plaintext port with / without XDS_AUTH_PLAINTEXT,
+		// a transport security that is not TLS
+		q.req.mode = wire.Pick(r, []string{"plain", "plain", "noauth", "other", "other", "otherplain"})
 	}
 	return q
 }
@@ -736,6 +795,21 @@ func genDynamicCase(r *wire.Rng, cfg genCA, out *wire.Out) {
 		}
 		q := reqSpec{xdsAuth: true, hasPeer: true, tls: true, outs: []authOutcome{o}, csr: csrSpec{form: "ok", key: "ec256-a"}, ttl: 600,
 			imp: "s:" + wire.Enc("spiffe://cluster.local/ns/"+ns+"/sa/"+sa), signer: "-", cluster: wire.EncList([]string{id})}
+		if r.Chance(1, 2) {
+			q.csr = genCSR(r)
+		}
+		if r.Chance(1, 2) {
+			q.ttl = genTTL(r, cfg)
+		}
+		if r.Chance(1, 4) {
+			// the node proxy authenticates with its Kubernetes token (the REAL authenticator in the server)
+			rev := reviewSpec{authenticated: true, groups: []string{"system:serviceaccounts", "system:authenticated"},
+				username: "system:serviceaccount:istio-system:ztunnel", podName: "=zt", podUID: "=" + wire.EncList([]string{ztUID})}
+			a := reqaSpec{spec: kubeSpecTokens("cluster.local", "c1", nil, wire.EncList([]string{"c2"}), q.cluster, "bearer", "node-proxy-token", []string{"istio-ca"}, rev), req: q}
+			a.req.outs = nil
+			out.Line(a.line()...)
+			return
+		}
 		out.Line(q.line()...)
 	}
 	steps := 4 + r.Intn(8)
@@ -856,7 +930,7 @@ func genReqM(r *wire.Rng, w genWorld, cfg genCA) reqmSpec {
 			if kind == 1 {
 				sp[6] = m.req.cluster
 			}
-			_, ok := expectedFromCredential(sp, m.req.cluster)
+			_, ok := expectedFromCredential(sp, m.req.cluster, nil)
 			if sp[0] == "xfcc" && sp[3] == "nopeer" {
 				ok = !valid // keep a peer
 			}
@@ -885,6 +959,34 @@ func genReqM(r *wire.Rng, w genWorld, cfg genCA) reqmSpec {
 	for i, k := range order {
 		m.specs = append(m.specs, pick(k, i == good || (good == 4 && i >= 1)))
 	}
+	if len(w.ids) > 0 && r.Chance(2, 5) {
+		// the ambient flow inside the chain: the Kubernetes-JWT authenticator sees a node proxy's token and the request
+		// asks for a workload identity - behind a client-certificate authenticator that fails (the flow goes through)
+		// or succeeds (the caller then has no pod information: refused)
+		if sp := genAmbientKube(r, w, &m.req); sp != nil {
+			for i := range m.specs {
+				switch m.specs[i][0] {
+				case "kube", "oidc":
+					m.specs[i] = sp
+				case "cert", "tlscert":
+					if r.Chance(3, 4) {
+						m.specs[i] = []string{"cert", "grpc", "tls", wire.EncList([]string{wire.Enc("nosan")})}
+					}
+				}
+			}
+		}
+	} else if r.Chance(1, 8) {
+		m.req.imp = genImpersonation(r, w)
+	}
+	hasTLSCert := false
+	for _, sp := range m.specs {
+		if sp[0] == "tlscert" {
+			hasTLSCert = true
+		}
+	}
+	if !hasTLSCert && r.Chance(1, 7) {
+		m.req.mode = wire.Pick(r, []string{"plain", "plain", "noauth", "other", "otherplain"})
+	}
 	return m
 }
 
@@ -902,7 +1004,7 @@ func genIssue(seed uint64, n int, outp string) {
 		out.Line("case", strconv.Itoa(c), "issue")
 		cfg := genCAConfig(r)
 		out.Line(cfg.line()...)
-		if r.Chance(1, 14) {
+		if r.Chance(1, 20) {
 			genDynamicCase(r, cfg, out)
 			continue
 		}
@@ -926,12 +1028,23 @@ func genIssue(seed uint64, n int, outp string) {
 					cfg.chain = nil
 				}
 			}
-			if r.Chance(1, 30) && cfg.hasSigner && cfg.kind != "self" && cfg.kind != "selfk8s" && cfg.kind != "plugrsa" {
+			if r.Chance(1, 30) && cfg.hasSigner && cfg.kind != "self" && cfg.kind != "selfk8s" && cfg.kind != "selfrot" && cfg.kind != "plugrsa" {
 				hosts := wire.Pick(r, [][]string{{"istiod.istio-system.svc"}, {"istiod.istio-system.svc", "istiod-remote.istio-system.svc"}, {"a,b"}, {"10.0.0.1", "spiffe://cluster.local/ns/istio-system/sa/istiod"}})
 				ttl := wire.Pick(r, []int64{600, 86400 * 365})
 				if !nearBoundary(ttl, cfg) {
 					out.Line("genkeycert", wire.EncList(hosts), strconv.FormatInt(ttl, 10))
 				}
+			}
+			if r.Chance(1, 25) {
+				// the trust domain of the mesh config changes; the next request is authenticated by a real Kubernetes-JWT
+				// or OIDC authenticator (constructed under its own, older trust domain)
+				out.Line("mesh", wire.Enc(wire.Pick(r, []string{"new.td", "cluster.local", "td2.example", "td@corp.example"})))
+				q := genReqA(r, w, cfg)
+				for i := 0; i < 6 && q.spec[0] != "kube" && q.spec[0] != "oidc"; i++ {
+					q = genReqA(r, w, cfg)
+				}
+				out.Line(q.line()...)
+				continue
 			}
 			if r.Chance(1, 4) {
 				out.Line(genReqA(r, w, cfg).line()...)
@@ -951,8 +1064,19 @@ func genIssue(seed uint64, n int, outp string) {
 				q.tls = false
 			case 3:
 				q.tls, q.plaintext = false, true
+			case 4, 5:
+				q.tls, q.other = false, true // an AuthInfo that is not credentials.TLSInfo (ALTS, local, ...)
+			case 6:
+				q.tls, q.other, q.plaintext = false, true, true
 			}
 			q.outs = genOutcomes(r, w)
+			if !q.tls && len(q.outs) > 0 && r.Chance(3, 4) {
+				// ... with an authenticator that would accept the caller
+				q.outs[0].kind = "ok"
+				if len(q.outs[0].ids) == 0 {
+					q.outs[0].ids = []string{genSpiffe(r)}
+				}
+			}
 			q.csr = genCSR(r)
 			q.ttl = genTTL(r, cfg)
 			impP := 1
